@@ -233,7 +233,7 @@ stmt(struct func *f, struct scope *s)
 				funcexpr(f, e);
 				delexpr(e);
 			}
-			expect(TSEMICOLON, NULL);
+			expect(TSEMICOLON, "after 'for' initializer");
 		}
 
 		b[0] = mkblock("for_cond");
@@ -251,9 +251,9 @@ stmt(struct func *f, struct scope *s)
 			funcjnz(f, v, t, b[1], b[3]);
 			delexpr(e);
 		}
-		expect(TSEMICOLON, NULL);
+		expect(TSEMICOLON, "after 'for' condition");
 		e = tok.kind == TRPAREN ? NULL : expr(s);
-		expect(TRPAREN, NULL);
+		expect(TRPAREN, "after 'for' clauses");
 
 		funclabel(f, b[1]);
 		s = mkscope(s);
